@@ -1277,7 +1277,7 @@ fn space(tier: &str) -> &'static Space {
                 let size = (alpha.len() as u64).pow(len as u32);
                 for &vm in &via_modes {
                     // script / alternating enumeration only for the shorter blocks
-                    if vm != 0 && size > if tier == "thorough" { 40_000_000 } else { 600_000 } {
+                    if vm != 0 && size > if tier == "thorough" { 44_000_000 } else { 600_000 } {
                         continue;
                     }
                     let uses = alpha
